@@ -1,5 +1,5 @@
 """C01 — dependencies finish successfully before a task starts."""
-from .. import graph, model
+from .. import graph, model, reallayer
 from ..runner import Outcome
 
 ID = "C01"
@@ -10,7 +10,8 @@ RULE = ("Hypothesis-generated graph cases: 1-8 (thorough 12) tasks of all four k
         "an integer schedule tape that chooses which running children exit at every scheduling point. "
         "Non-trivial = >=2 executed tasks related by a dependency AND (the tape-made completion order differs "
         "from spawn order OR >=2 task processes were in flight at once). Distinct = SHA-1 of case JSON."
-        " A quarter of the cases come from an experiment-heavy generator in which every second experiment is cached (chains of pruned tasks with shortcut edges); the same task name may occur in different packages.")
+        " A quarter of the cases come from an experiment-heavy generator in which every second experiment is cached (chains of pruned tasks with shortcut edges); the same task name may occur in different packages."
+        + reallayer.RULE_NOTE)
 ASSUMPTIONS = ["virtual time: order is the order of events in the kernel's log (any real completion order is "
                "producible by a tape)", "group tasks have no command/step of their own and are only checked as dependencies"]
 ESSENTIAL = ["two_paths", "shortcut_dep_listed_after_sibling", "shortcut_dep_listed_before_sibling",
@@ -31,7 +32,9 @@ def strategy(tier):
     cached = graph.graph_case(max_tasks=8 if tier == "quick" else 12, outcomes="some", max_bad=2, kind_weights=(2, 6, 1, 0),
                               tape_max=50, tape_hi=31, p_par=0.875, p_seed_den=2, densities=("dense", "sparse"),
                               jobs=(None, 2, 3, 3, 4), flags=())
-    return st.one_of(general, general, cached, graph.layered_case(flags=("again",), p_fail_den=6))
+    virtual = st.one_of(general, general, cached, graph.layered_case(flags=("again",), p_fail_den=6))
+    real = st.one_of(reallayer.real_case(flags=("again",)), reallayer.real_case(layered=True))
+    return reallayer.mixed(virtual, real)
 
 
 def examples(tier):
@@ -39,6 +42,8 @@ def examples(tier):
 
 
 def run_case(case):
+    if case.get("layer") == "real":
+        return check(case, reallayer.run_real(case))
     return check(case, graph.run_graph_case(case))
 
 
@@ -46,7 +51,7 @@ def check(case, res):
     obs = graph.Obs(case, res)
     ids = obs.ids
     v = []
-    labels = graph.shape_labels(case)
+    labels = graph.shape_labels(case) + (["real_processes"] if case.get("layer") == "real" else [])
     if res["status"] in ("deadlock", "livelock"):
         return Outcome([], labels + ["deadlock_ignored_here"], False, obs.brief())
     executed = obs.executed()
